@@ -11,8 +11,8 @@ from ..runner import harness
 
 LIB = (xgi.exception.XGIError, xgi.exception.IDNotFound)
 P = {"members": 3, "bulk": 2, "bulk_members": 2, "dimembers": 2, "bulk_dimembers": 1}
-MODEL_OPS_H = [o for o in ops.OPS_H if o not in ("double_edge_swap", "random_edge_shuffle", "cleanup", "convert_labels", "largest_cc", "add_edges_from_iter", "add_edges_from_attrpairs")]
-MODEL_OPS_D = [o for o in ops.OPS_D if o not in ("cleanup", "convert_labels", "add_edges_from_iter")]
+MODEL_OPS_H = [o for o in ops.OPS_H if o not in ("double_edge_swap", "random_edge_shuffle", "cleanup", "convert_labels", "largest_cc", "add_edges_from_iter", "add_edges_from_attrpairs", "exotic_args")]
+MODEL_OPS_D = [o for o in ops.OPS_D if o not in ("cleanup", "convert_labels", "add_edges_from_iter", "exotic_args")]
 
 
 def _shapeH(s):
